@@ -122,6 +122,15 @@ def step (d : DS) (ws : List String) : DS × String :=
     match firstIdx d.sys.gs isLoading with
     | some i => ev d (.step i (some (valOf (unhx v))))
     | none => (d, "no-loader")
+  | ["load-ok-storefail", v] =>
+    -- the loader returned v; the store of v fails on the caller's side (same as the context being done at
+    -- that moment): the holder gives the lock back and returns the error
+    match firstIdx d.sys.gs isLoading with
+    | some i =>
+      let s1 := next (next d.sys (.step i (some (valOf (unhx v))))) (.cancel i)
+      let s := quiesce s1 200
+      ({ d with sys := s, known := s.srv.alive.foldl (fun acc i => if i ∈ acc then acc else i :: acc) d.known }, stateStr s)
+    | none => (d, "no-loader")
   | ["load-err"] =>
     match firstIdx d.sys.gs isLoading with
     | some i => ev d (.step i none)
